@@ -206,6 +206,19 @@ def _imm_fns(F):
     for ty in (P + "imm::Imm", P + "imm::CsrImm"):
         out.add(F.method(ty, "from_str", trait="FromStr"))
         out.add(F.method(ty, "try_from", trait_ref=r"TryFrom<riscv_analysis::parser::token::Token>"))
+    # and the helpers of the literal module they call (a branch moved into `Imm::from_digits` is still literal parsing)
+    work = list(out)
+    while work:
+        q = work.pop()
+        g = F.fns.get(q)
+        if not g or "hir" not in g:
+            continue
+        for c in walk(g["hir"]["value"], pats=False):
+            if c.get("k") in ("Call", "MethodCall"):
+                t = callee_of(c) or ""
+                if t.startswith(P + "imm::") and t in F.fns and "hir" in F.fns[t] and t not in out and "{closure" not in t:
+                    out.add(t)
+                    work.append(t)
     return out
 
 
